@@ -640,10 +640,14 @@ impl Drop for OsOpaqueIpcChannel {
     fn drop(&mut self) {
         // Make sure we don't leak!
         //
-        // The `OsOpaqueIpcChannel` objects should always be used,
-        // i.e. converted with `to_sender()` or `to_receiver()` --
-        // so the value should already be unset before the object gets dropped.
-        debug_assert!(self.fd == -1);
+        // The `OsOpaqueIpcChannel` objects are normally used,
+        // i.e. converted with `to_sender()` or `to_receiver()`, which unsets the value.
+        // A received descriptor that nothing claimed (the message was dropped undecoded,
+        // failed to decode, or did not reference it) is still ours to close.
+        if self.fd >= 0 {
+            let result = unsafe { libc::close(self.fd) };
+            assert!(thread::panicking() || result == 0);
+        }
     }
 }
 
